@@ -423,6 +423,17 @@ func runC02(c *core.Ctx) {
 		}
 		hist = append(hist, fmt.Sprintf("Contains(%d)", target))
 		c.Count("lookups_before_mutations", 1)
+		// ... sometimes the whole tree is cleared and rebuilt from a few values (nodes or
+		// bookkeeping recycled by Clear must come back clean)
+		if r.Chance(1, 40) && len(keys) >= 3 {
+			t.Clear()
+			hist = append(hist, "Clear()")
+			for k := range present {
+				delete(present, k)
+			}
+			keys = keys[:0]
+			c.Count("clears_then_rebuild", 1)
+		}
 		// ... and a Remove of a value that is not in the tree: it must fail and leave
 		// nothing behind that changes how later mutations rebalance
 		if r.Bool() {
@@ -463,6 +474,9 @@ func runC02(c *core.Ctx) {
 		}
 		maybeClone()
 		lookups(v)
+		if !present[v] {
+			return true // the tree was cleared by the step above
+		}
 		hist = append(hist, fmt.Sprintf("Remove(%d)", v))
 		hh = core.Mix(hh, uint64(v)*2+1)
 		cmpCalls = 0
